@@ -266,6 +266,12 @@ func (ro *RedisOutput) SetRunId(ctx context.Context, id string) error {
 	if ro.cfg.RunId == id {
 		return nil
 	}
+	if ro.cfg.CheckpointName == "" {
+		// no bookkeeping on the target (resumeFromBreakPoint off, not bidirectional) : nothing to relabel.
+		// UpdateCheckpoint with the empty name would store a record under the key "" and map id to ""
+		ro.cfg.RunId = id
+		return nil
+	}
 
 	return util.RetryLinearJitter(ctx, func() error {
 		cli, err := ro.NewRedisConn(ctx)
